@@ -77,6 +77,8 @@ pub (crate) fn bid128_ldexp(x: &BID_UINT128, n: i32, rnd_mode: RoundingMode, pfp
     }
     // exponent < 0
     // the BID pack routine will round the coefficient
-    res = bid_get_BID128(sign_x, exponent_x, &CX, rnd_mode, pfpsf);
+    let mut local_fpsf: _IDEC_flags = StatusFlags::BID_EXACT_STATUS;
+    res = bid_get_BID128(sign_x, exponent_x, &CX, rnd_mode, &mut local_fpsf);
+    *pfpsf |= local_fpsf;
     res
 }
